@@ -1090,18 +1090,35 @@ func ruleRecordListsFilledSequentially(c *Check, rule string) {
 func ruleRecordedOutputsComparedAsSets(c *Check, rule string) {
 	c.Rule(rule, "every element-wise comparison (slices.Equal, or a loop comparing x[i] with y[i]) between a list derived from the stored result's outputs and the declared outputs is made on lists that were sorted before it", 1)
 	outsKey := fk("proto/gen.TargetResult", "Outputs")
-	n := 0
+	// the functions that read the stored outputs, and the helpers of their package they hand the lists to
+	cand := map[*ssa.Function]bool{}
 	for _, fn := range c.P.Funcs {
 		if !(engine.InPackage(fn, "output") || engine.InPackage(fn, "execution") || engine.InPackage(fn, "caching")) {
 			continue
 		}
-		readsStored := false
+		readsStored := readsField(c, fn, outsKey)
 		for _, s := range engine.SitesIn(fn) {
 			if strings.HasSuffix(engine.CalleeName(s), "gen.TargetResult).GetOutputs") {
 				readsStored = true
 			}
 		}
-		if !readsStored && !readsField(c, fn, outsKey) {
+		if !readsStored {
+			continue
+		}
+		cand[fn] = true
+		for _, s := range engine.SitesIn(fn) {
+			if h := s.Common().StaticCallee(); h != nil && len(h.Blocks) > 0 && h.Pkg == fn.Pkg {
+				for _, a := range s.Common().Args {
+					if sl, ok := a.Type().Underlying().(*types.Slice); ok && isStringType(sl.Elem()) {
+						cand[h] = true
+					}
+				}
+			}
+		}
+	}
+	n := 0
+	for _, fn := range c.P.Funcs {
+		if !cand[fn] {
 			continue
 		}
 		type cmp struct {
@@ -1137,12 +1154,28 @@ func ruleRecordedOutputsComparedAsSets(c *Check, rule string) {
 		}
 		for _, cm := range cmps {
 			n++
-			ok := sortedBefore(c, fn, cm.a, cm.at) && sortedBefore(c, fn, cm.b, cm.at)
+			sortedVal := func(v ssa.Value) bool {
+				if sortedBefore(c, fn, v, cm.at) {
+					return true
+				}
+				orig := engine.Origins(v)
+				if len(orig) == 0 {
+					return false
+				}
+				for _, o := range orig {
+					call, _ := engine.CallOf(o)
+					if call == nil || !strings.HasPrefix(engine.CalleeName(call), "slices.Sorted") {
+						return false
+					}
+				}
+				return true // slices.Sorted / SortedFunc / SortedStableFunc return a sorted copy
+			}
+			ok := sortedVal(cm.a) && sortedVal(cm.b)
 			c.Require(ok, rule, "recorded-outputs-compared-sorted/"+c.P.FuncName(fn), "both lists are sorted before they are compared element by element", "the outputs recorded in the stored result are compared with the declared outputs position by position without sorting both first: the writer records them in the order their uploads finished, so a multi-output target whose first output is slower to store 'mismatches' its own result and is executed again on every rebuild", c.P.InstrPos(cm.at))
 		}
 	}
 	if n == 0 {
-		c.Unknown(rule, "recorded-outputs-compared-sorted", "no element-wise comparison of the stored result's outputs found", "-")
+		c.OK(rule, "recorded-outputs-compared-sorted", "the stored result's outputs are not compared element by element anywhere", "-")
 	}
 }
 
